@@ -14,6 +14,9 @@ import (
 	"verif/harness/internal/rec"
 )
 
+// noCtx marks a notification that was read from a Go channel (no callback context exists).
+var noCtx = context.WithValue(context.Background(), rec.KeyCb, "read from a channel")
+
 // Direction-B driver for the hand-off operators and channel bridges (C08 hand-off clause, C17): DetachTrace.tla.
 
 type DetachScenario struct {
@@ -71,8 +74,25 @@ func RunDetach(lg *rec.Log, sc DetachScenario, seed int64) []rec.Ev {
 	}
 	defer doRelease()
 	var progress int64 // bumped by every producer / consumer event (used to detect that the producer is blocked)
-	consume := func(k string, v int) {
-		lg.Add(rec.Ev{E: "consB", K: k, V: v})
+	// ctxOK: the callback context carries the subscription marker and (for a value) the item marker of that very value (C09, CtxTrace.tla)
+	ctxOK := func(ctx context.Context, k string, v int) bool {
+		if ctx == nil {
+			return false
+		}
+		if ctx.Value(rec.KeySub) == nil {
+			return false
+		}
+		if sc.Op == "fromchannel" {
+			return true // values come out of a Go channel: there is no per-item context
+		}
+		it, _ := ctx.Value(rec.KeyItem).(int)
+		if k == "N" {
+			return it == v
+		}
+		return it == -1
+	}
+	consume := func(k string, v int, ctx context.Context) {
+		lg.Add(rec.Ev{E: "consB", K: k, V: v, B: ctx == noCtx || ctxOK(ctx, k, v)})
 		atomic.AddInt64(&progress, 1)
 		switch sc.Profile {
 		case "slow":
@@ -93,9 +113,9 @@ func RunDetach(lg *rec.Log, sc DetachScenario, seed int64) []rec.Ev {
 		f()
 	}
 	obs := ro.NewObserverWithContext(
-		func(ctx context.Context, v any) { consume("N", v.(int)) },
-		func(ctx context.Context, err error) { consume("E", 0) },
-		func(ctx context.Context) { consume("C", 0) },
+		func(ctx context.Context, v any) { consume("N", v.(int), ctx) },
+		func(ctx context.Context, err error) { consume("E", 0, ctx) },
+		func(ctx context.Context) { consume("C", 0, ctx) },
 	)
 	var sub ro.Subscription
 	var subMu sync.Mutex
@@ -106,11 +126,11 @@ func RunDetach(lg *rec.Log, sc DetachScenario, seed int64) []rec.Ev {
 		switch sc.End {
 		case "C":
 			lg.Add(rec.Ev{E: "prodB", I: i, K: "C"})
-			guard(1, func() { d.CompleteWithContext(base) })
+			guard(1, func() { d.CompleteWithContext(context.WithValue(base, rec.KeyItem, -1)) })
 			lg.Add(rec.Ev{E: "prodRet", I: i})
 		case "E":
 			lg.Add(rec.Ev{E: "prodB", I: i, K: "E"})
-			guard(1, func() { d.ErrorWithContext(base, errCause[1]) })
+			guard(1, func() { d.ErrorWithContext(context.WithValue(base, rec.KeyItem, -1), errCause[1]) })
 			lg.Add(rec.Ev{E: "prodRet", I: i})
 		}
 	}
@@ -119,7 +139,7 @@ func RunDetach(lg *rec.Log, sc DetachScenario, seed int64) []rec.Ev {
 		for i := 1; i <= sc.N; i++ {
 			lg.Add(rec.Ev{E: "prodB", I: i, K: "N"})
 			atomic.AddInt64(&progress, 1)
-			guard(1, func() { d.NextWithContext(base, any(i)) })
+			guard(1, func() { d.NextWithContext(context.WithValue(base, rec.KeyItem, i), any(i)) })
 			lg.Add(rec.Ev{E: "prodRet", I: i})
 			atomic.AddInt64(&progress, 1)
 		}
@@ -165,6 +185,8 @@ func RunDetach(lg *rec.Log, sc DetachScenario, seed int64) []rec.Ev {
 		got := make(chan (<-chan ro.Notification[any]), 1)
 		chObs := ro.NewObserverWithContext(
 			func(ctx context.Context, c <-chan ro.Notification[any]) {
+				// the channel is handed to the observer in a value callback like any other (C09: its context derives from the subscription's)
+				lg.Add(rec.Ev{E: "handout", B: ctx != nil && ctx.Value(rec.KeySub) != nil})
 				select {
 				case got <- c:
 				default:
@@ -182,11 +204,11 @@ func RunDetach(lg *rec.Log, sc DetachScenario, seed int64) []rec.Ev {
 				for n := range c {
 					switch n.Kind {
 					case ro.KindNext:
-						consume("N", n.Value.(int))
+						consume("N", n.Value.(int), noCtx)
 					case ro.KindError:
-						consume("E", 0)
+						consume("E", 0, noCtx)
 					default:
-						consume("C", 0)
+						consume("C", 0, noCtx)
 					}
 				}
 				lg.Add(rec.Ev{E: "closeSeen"})
